@@ -1080,7 +1080,7 @@ func (f *Frame) anchorsAt(kind, calleeName string, st *State) {
 			u.note("assumed at " + ShortName(f.fn) + " " + want + ": " + a.Src)
 			continue
 		}
-		if imp, ok := a.E.(*EBin); ok && imp.Op == "==>" {
+		if imp, ok := a.E.(*EBin); ok && imp.Op == "==>" && !strings.HasSuffix(a.Anchor, "#*") {
 			u.coverCond(st, "antecedent of "+want+"/"+label, ctx.evalBool(imp.X))
 		}
 		g := ctx.evalGoal(a.E)
@@ -1117,7 +1117,7 @@ func (f *Frame) anchorsAfterCall(calleeName string, st *State) {
 			u.note("assumed at " + ShortName(f.fn) + " " + want + ": " + a.Src)
 			continue
 		}
-		if imp, ok := a.E.(*EBin); ok && imp.Op == "==>" {
+		if imp, ok := a.E.(*EBin); ok && imp.Op == "==>" && !strings.HasSuffix(a.Anchor, "#*") {
 			u.coverCond(st, "antecedent of "+want+"/"+label, ctx.evalBool(imp.X))
 		}
 		u.oblige(st, "assert-noassume", f.anchor+want+"/"+label, ctx.evalGoal(a.E), "at "+want+": "+a.Src)
